@@ -1475,6 +1475,92 @@ theorem C10_kern_diamond_witness :
     quantize (ufoKern' (glyphToGroup exCx.side1Classes "g1") (glyphToGroup exCx.side2Classes "g2") exB.kerning "g1" "g2") exCx.q = -30 := by
   decide +kernel
 
+/-! ### sources with groups of their own -/
+
+theorem kget_none_first (K : List (String × String × Q)) (G : Option String)
+    (h : ∀ n, G = some n → ∀ e ∈ K, e.1 ≠ n) (b : Option String) : kget K G b = none := by
+  cases G with
+  | none => cases b <;> rfl
+  | some n =>
+    cases b with
+    | none => rfl
+    | some y =>
+      simp only [kget, Option.map_eq_none_iff, List.find?_eq_none]
+      intro e he
+      have := h n rfl e he
+      simp [this]
+
+theorem kget_none_second (K : List (String × String × Q)) (G : Option String)
+    (h : ∀ n, G = some n → ∀ e ∈ K, e.2.1 ≠ n) (a : Option String) : kget K a G = none := by
+  cases G with
+  | none => cases a <;> rfl
+  | some n =>
+    cases a with
+    | none => rfl
+    | some x =>
+      simp only [kget, Option.map_eq_none_iff, List.find?_eq_none]
+      intro e he
+      have := h n rfl e he
+      simp [this]
+
+/-- **C10_own_groups.**  UFO semantics of a master read with the master's OWN group membership equals UFO semantics read with the
+    family's classes (the union `getKerningGroups` builds over all sources), provided each side's own view is the family's or the
+    master lacks the group and names it in no key (`Spec.ownGroupOK1/2`): a master need not define the groups that only other
+    masters' pairs use. -/
+theorem C10_own_groups (K : List (String × String × Q)) (g1 g2 : String) (O1 O2 G1 G2 : Option String)
+    (h1 : ownGroupOK1 K O1 G1) (h2 : ownGroupOK2 K O2 G2) :
+    ufoKern' O1 O2 K g1 g2 = ufoKern' G1 G2 K g1 g2 := by
+  have a1 : ∀ b, kget K O1 b = kget K G1 b := by
+    intro b
+    rcases h1 with rfl | ⟨rfl, h1⟩
+    · rfl
+    · rw [kget_none_first K G1 h1 b]; cases b <;> rfl
+  have a2 : ∀ a, kget K a O2 = kget K a G2 := by
+    intro a
+    rcases h2 with rfl | ⟨rfl, h2⟩
+    · rfl
+    · rw [kget_none_second K G2 h2 a]; cases a <;> rfl
+  unfold ufoKern'
+  simp only [a1, a2]
+
+/-- **C10_kern_glyph_own.**  `C10_kern_glyph` for families whose sources do not carry the same groups: at a full source's location the
+    first-match reading of the emitted pairs is that source's quantised UFO kerning READ WITH ITS OWN GROUPS (`O1`, `O2` = the
+    groups of `g1`, `g2` in that source), outside the diamond shape. -/
+theorem C10_kern_glyph_own (cx : KCtx) (srcs : List Source) (dl : Loc) (h : wfKern cx srcs dl = true)
+    (s : Source) (hs : s ∈ fullSources srcs) (g1 g2 : String)
+    (hm1 : cx.glyphSet.contains g1 = true) (hm2 : cx.glyphSet.contains g2 = true)
+    (hb1 : g1.startsWith SIDE1_PREFIX = false) (hb2 : g2.startsWith SIDE2_PREFIX = false)
+    (hG1 : ∀ n, glyphToGroup cx.side1Classes g1 = some n → n.startsWith SIDE1_PREFIX = true)
+    (hG2 : ∀ n, glyphToGroup cx.side2Classes g2 = some n → n.startsWith SIDE2_PREFIX = true)
+    (hnd : diamond cx srcs s g1 g2 = false) (O1 O2 : Option String)
+    (ho1 : ownGroupOK1 s.kerning O1 (glyphToGroup cx.side1Classes g1))
+    (ho2 : ownGroupOK2 s.kerning O2 (glyphToGroup cx.side2Classes g2)) :
+    appliedAt cx (unionKeys srcs) (getVariableKerningPairs cx srcs dl) s.loc g1 g2 =
+      quantize (ufoKern' O1 O2 s.kerning g1 g2) cx.q := by
+  rw [C10_own_groups s.kerning g1 g2 O1 O2 _ _ ho1 ho2]
+  exact C10_kern_glyph cx srcs dl h s hs g1 g2 hm1 hm2 hb1 hb2 hG1 hG2 hnd
+
+/-- Regular (default) has no groups and no kerning; Bold defines kern1.T = [T, Tbar], kern2.o = [a, o] and the class pair -66 -/
+def ogCx : KCtx := { side1Classes := [("public.kern1.T", ["T", "Tbar"])], side2Classes := [("public.kern2.o", ["a", "o"])],
+                     glyphSet := ["T", "Tbar", "a", "o"], q := 1 }
+def ogCxDefaultOnly : KCtx := { ogCx with side1Classes := [], side2Classes := [] }
+def ogR : Source := { loc := [("wght", 400)], sparse := false, kerning := [] }
+def ogB : Source := { loc := [("wght", 700)], sparse := false, kerning := [("public.kern1.T", "public.kern2.o", -66), ("Tbar", "a", -44)] }
+
+/-- non-vacuity of C10_kern_glyph_own: with the classes of ALL sources the Bold-only class pair is reproduced at Bold and is 0 at
+    Regular, whose own groups are empty (own view `none`, no key names the groups) -/
+example : wfKern ogCx [ogR, ogB] ogR.loc = true ∧
+    appliedAt ogCx (unionKeys [ogR, ogB]) (getVariableKerningPairs ogCx [ogR, ogB] ogR.loc) ogB.loc "T" "o" = -66 ∧
+    appliedAt ogCx (unionKeys [ogR, ogB]) (getVariableKerningPairs ogCx [ogR, ogB] ogR.loc) ogR.loc "T" "o" = 0 ∧
+    quantize (ufoKern' none none ogR.kerning "T" "o") 1 = 0 := by decide +kernel
+
+/-- **the groups of every source are needed**: with the classes of the default source alone (none here) the Bold-only class pair is
+    dropped - the font applies 0 to (T, o) at Bold where Bold's UFO kerning is -66 -/
+theorem C10_own_groups_witness :
+    appliedAt ogCxDefaultOnly (unionKeys [ogR, ogB]) (getVariableKerningPairs ogCxDefaultOnly [ogR, ogB] ogR.loc) ogB.loc "T" "o" = 0 ∧
+    quantize (ufoKern' (some "public.kern1.T") (some "public.kern2.o") ogB.kerning "T" "o") 1 = -66 := by
+  decide +kernel
+
 /-- non-vacuity of C10_anchor: a default master, a sparse layer that has the glyph (and the anchor), a second master; the anchor is
     rounded per layer (half up), the layer without the glyph contributes nothing -/
 def exLayers : List AnchorLayer :=
